@@ -11,6 +11,7 @@ import (
 	"sort"
 	"strings"
 
+	"verifharness/envh"
 	"verifharness/fw"
 )
 
@@ -119,6 +120,27 @@ func genLocks(repo string) (string, error) {
 	return b.String(), nil
 }
 
+// genGlue: the statement of RpcServer.ControlEnvironment that forces the state after a refused GO_ERROR
+// (envh.GlueFacts; the same facts steer the harness's replica of those lines).
+func genGlue(repo string) (string, error) {
+	g, err := envh.GlueFacts(repo)
+	if err != nil {
+		return "", err
+	}
+	var b strings.Builder
+	b.WriteString("namespace Gen\n\n/-- RpcServer.ControlEnvironment (core/server.go, go/ast): the `if` statement whose body forces the state with\n    `env.Sm.SetState(\"ERROR\")`. `glueRecognised`: there is exactly one, its init statement is the GO_ERROR fallback\n    `<err> := env.TryTransition(environment.NewGoErrorTransition(m.state.taskman))` and its condition is `<err> != nil`\n    followed only by conjuncts `env.CurrentState() != \"S\"`; `glueSpares`: those S, in order. -/\n")
+	fmt.Fprintf(&b, "def glueRecognised : Bool := %v\n\ndef glueInit : String := %q\n\ndef glueCond : String := %q\n\ndef glueSpares : List String := [", g.Recognised, g.Init, g.Cond)
+	for i, s := range g.Spares {
+		if i > 0 {
+			b.WriteString(", ")
+		}
+		fmt.Fprintf(&b, "%q", s)
+	}
+	b.WriteString("]\n\nend Gen\n")
+	return b.String(), nil
+}
+
 func init() {
 	fw.RegisterGen(fw.GenFile{Name: "EnvLocks.lean", Make: genLocks})
+	fw.RegisterGen(fw.GenFile{Name: "EnvGlue.lean", Make: genGlue})
 }
